@@ -1,5 +1,5 @@
 """C07 — CFDP File Data PDU.  Streams, implementation adapter, oracle."""
-import itertools
+import copy, itertools
 from harness import core
 from harness.props import c05 as h5
 from spacepackets.cfdp.pdu.file_data import (FileDataPdu, FileDataParams, SegmentMetadata, RecordContinuationState,
@@ -23,7 +23,11 @@ ENUMS = [
 ASSUMPTIONS = h5.ASSUMPTIONS + [
     "crcmod's crc-ccitt-false equals the bitwise CRC-16 of Base/Crc16.v (tied exhaustively in family 17 / C04); "
     "here every packed CRC trailer is additionally recomputed bitwise by the oracle",
-    "copy.copy(pdu_conf) is shallow and nothing else aliases the caller's PduConfig (its fields are compared after construction)",
+    "copy.copy(pdu_conf) in the constructor is shallow (by design): the PDU's configuration and the caller's share the three "
+    "UnsignedByteField objects until one side gets another object assigned; the history model (Model/FileDataOps.v, fworld) "
+    "tracks which fields are still shared, and the caller's PduConfig is compared after construction and at the end of every history",
+    "the PDU aliases the caller's FileDataParams (by design): writes to params.offset / params.file_data show through without "
+    "a recalculated length until one of the PDU's setters runs (modelled; the oracle judges pack() against the current views)",
 ]
 TRUSTED = ["crcmod 1.7 (C extension) as CRC-16/CCITT-FALSE"]
 EXPLORED_ONLY = []
@@ -68,7 +72,74 @@ def _conf_lists(c):
             [int(c.trans_mode), int(c.file_flag), int(c.crc_flag), int(c.direction), int(c.seg_ctrl)]]
 
 
+# ------------------------------------------------------------------ operation histories (ops 1407 / 1408)
+def _fdstate(p):
+    return h5._hstate(p.pdu_header) + [[p.offset], list(p.file_data), _meta_enc(p.segment_metadata)]
+
+
+def _params_view(q):
+    return [[q.offset], list(q.file_data), _meta_enc(q.segment_metadata)]
+
+
+def apply_fd_op(p, params, l):
+    """one operation of Model/FileDataOps.v (fd_hop) on the PDU p whose parameter object is params"""
+    k = l[0] if l else -1
+    if k == 20 and len(l) >= 2:
+        p.file_data = bytearray(l[2:]) if l[1] & 1 else bytes(l[2:]); return []
+    if k == 21:
+        p.segment_metadata = None; return []
+    if k == 22 and len(l) >= 2:
+        p.segment_metadata = _meta([1] + list(l[1:])); return []
+    if k == 23:
+        d = params.file_data
+        if not isinstance(d, bytearray):
+            d = bytearray(d); params.file_data = d
+        d.extend(bytes(l[1:]))          # the caller grows its own buffer in place ...
+        p.file_data = d; return []      # ... and hands the same object to the PDU again
+    if k == 24:
+        p.file_data = p.file_data; return []
+    if k == 25:
+        p.segment_metadata = p.segment_metadata; return []
+    if k == 26:
+        p.segment_metadata.metadata = bytes(l[1:]); return []
+    if k == 27 and len(l) >= 2:
+        p.segment_metadata.record_cont_state = RecordContinuationState(l[1]) if l[1] in (0, 1, 2, 3) else l[1]; return []
+    if k == 28 and len(l) >= 2:
+        params.offset = l[1]; return []
+    if k == 29:
+        params.file_data = bytes(l[1:]); return []
+    if k == 30:
+        return list(p.pack())
+    if k == 31 and len(l) >= 2:
+        return [p.get_max_file_seg_len_for_max_packet_len(l[1])]
+    return h5.apply_hdr_op(p.pdu_header, l)
+
+
 def impl(op, a):
+    if op == 1407:
+        conf = h5._conf_kind(a[5][0] if a[5] else 0, a[0], a[1])
+        data = bytearray(a[3]) if len(a[5]) > 1 and a[5][1] else bytes(a[3])
+        params = FileDataParams(file_data=data, offset=a[2][0], segment_metadata=_meta(a[4]))
+        if len(a[5]) > 2 and a[5][2] and not a[3] and a[2][0] == 0 and _meta(a[4]) is None:
+            params = FileDataParams.empty()         # the alternate constructor of the same parameter object
+        p = FileDataPdu(conf, params)
+        return (_fdstate(p) + _conf_lists(conf)
+                + h5.run_history(a[6:], lambda l: apply_fd_op(p, params, l), lambda: _fdstate(p))
+                + _params_view(params) + _conf_lists(conf))
+    if op == 1408:
+        if a[1] and a[1][0]:
+            buf = bytearray(a[0])
+            p = FileDataPdu.unpack(buf)
+            s0 = _fdstate(p)
+            h5.scramble(buf)
+            ok = int(_fdstate(p) == s0)
+        else:
+            p = FileDataPdu.unpack(bytes(a[0])); ok = 1
+        params = p._params
+        conf = copy.copy(p.pdu_header.pdu_conf)     # a second holder of the decoded byte-field objects
+        return ([[ok]] + _fdstate(p) + h5.run_history(a[2:], lambda l: apply_fd_op(p, params, l), lambda: _fdstate(p))
+                + _params_view(params) + _conf_lists(conf)
+                + _fdstate(FileDataPdu.unpack(bytes(a[0]))))        # the same octets decoded once more
     if op == 1400:
         p, conf, _ = _pdu(a)
         return _fields(p) + _conf_lists(conf)
@@ -169,6 +240,142 @@ def _rand_data(rng, n=None):
 def _rand_pdu(rng, **kw):
     ids, flags = _rand_conf(rng, **kw)
     return [ids, flags, [_rand_off(rng, flags[1])], _rand_data(rng), _rand_meta(rng)]
+
+
+# ---- what every operation is documented to do (generator bookkeeping and per-step oracle)
+def fd_required(st):
+    m = st["meta"]
+    return ((1 + len(m) - 2) if m[0] == 1 else 0) + (8 if st["flags"][1] == 1 else 4) + len(st["data"]) + (2 if st["flags"][2] == 1 else 0)
+
+
+def _cp(st):
+    return {k: list(v) for k, v in st.items()}
+
+
+def fd_pack_expect(st):
+    """octets pack() has to produce in state st, "refuse" (metadata longer than 63 octets), or None (no claim: a field
+    holds a value outside its domain)"""
+    if not h5.valid_args(st["ids"], st["flags"], st["hd"]):
+        return None
+    m = st["meta"]
+    body = []
+    if m[0] == 1:
+        if len(m) - 2 > 63:
+            return "refuse"
+        if not 0 <= m[1] <= 3:
+            return None
+        body = [m[1] * 64 + len(m) - 2] + list(m[2:])
+    w = 8 if st["flags"][1] == 1 else 4
+    if not 0 <= st["off"][0] < 256 ** w:
+        return None
+    out = h5.layout(st["ids"], st["flags"], st["hd"]) + body + list(st["off"][0].to_bytes(w, "big")) + list(st["data"])
+    if st["flags"][2] == 1:
+        c = h5.crc16_bitwise(out)
+        out = out + [c >> 8, c & 0xFF]
+    return out
+
+
+def fd_expect(st, l):
+    """st: hd / ids / flags as in c05.hdr_expect plus off [v], data, meta ([0] | [1, state, octets...]).
+    -> (state afterwards, verdict): "ok" | "refuse" (ValueError; the returned state is what has to be there after the
+    refusal) | "attr" (Python's own AttributeError on None) | "any" """
+    k = l[0]
+    n = _cp(st)
+    if k in (20, 21, 22, 23, 24, 25):
+        after_refusal = st
+        if k == 20: n["data"] = list(l[2:])
+        elif k == 21: n["meta"] = [0]; n["hd"][1] = 0
+        elif k == 22: n["meta"] = [1] + list(l[1:]); n["hd"][1] = 1
+        elif k == 23:
+            n["data"] = st["data"] + list(l[1:])
+            after_refusal = _cp(n)          # the caller's own in-place change stays, whatever the setter says
+        elif k == 25: n["hd"][1] = 1 if st["meta"][0] == 1 else 0
+        req = fd_required(n)
+        if req > 65535:
+            return after_refusal, "refuse"
+        n["hd"][2] = req
+        return n, "ok"
+    if k in (26, 27):
+        if st["meta"][0] != 1:
+            return st, "attr"
+        if k == 26: n["meta"] = st["meta"][:2] + list(l[1:])
+        else: n["meta"][1] = l[1]
+        return n, "ok"
+    if k == 28:
+        n["off"] = [l[1]]; return n, "ok"
+    if k == 29:
+        n["data"] = list(l[1:]); return n, "ok"
+    if k == 30:
+        e = fd_pack_expect(st)
+        return st, ("any" if e is None else "refuse" if e == "refuse" else "ok")
+    if k == 31:
+        ids = st["ids"]
+        if not all(h5.ubf_ok(ids[i], ids[i + 1]) for i in (0, 2, 4)):
+            return st, "any"
+        ov = 4 + ids[1] + ids[3] + ids[5] + (len(st["meta"]) - 1 if st["meta"][0] == 1 else 0) + (8 if st["flags"][1] == 1 else 4) + (2 if st["flags"][2] == 1 else 0)
+        return st, ("refuse" if l[1] < ov else "ok")
+    hs, verdict = h5.hdr_expect({"hd": st["hd"], "ids": st["ids"], "flags": st["flags"]}, l)
+    n["hd"], n["ids"], n["flags"] = list(hs["hd"]), list(hs["ids"]), list(hs["flags"])
+    return n, verdict
+
+
+SIZES = [0, 1, 2, 3, 63, 64, 255, 256, 257, 511, 512, 513, 1023, 1024, 1025]
+
+
+def _special_data(rng, n):
+    k = rng.randrange(5)
+    if k == 0: return [0xFF] * n
+    if k == 1: return [0x80] * n
+    if k == 2: return [0] * n
+    return [rng.randrange(256) for _ in range(n)]
+
+
+def rand_fd_op(rng, st, small=False):
+    k = rng.choice([20, 20, 20, 21, 22, 22, 23, 23, 24, 25, 26, 27, 28, 29, 30, 30, 31, "h", "h", "h"])
+    if k == "h":
+        l = h5.rand_hdr_op(rng, {"hd": st["hd"], "ids": st["ids"], "flags": st["flags"]})
+        while l[0] == 14 or (l[0] == 12 and len(l) > 40):   # pdu_conf replacement: see c05 (live-object probe); keep lines short
+            l = h5.rand_hdr_op(rng, {"hd": st["hd"], "ids": st["ids"], "flags": st["flags"]})
+        return l
+    if k == 20:
+        n = rng.choice(SIZES[:8] if small else SIZES + [rng.randrange(40)] * 8)
+        return [20, rng.randrange(2)] + _special_data(rng, n)
+    if k == 22:
+        return [22, rng.choice([0, 1, 2, 3, 3, 3, 4, -1])] + [rng.randrange(256) for _ in range(rng.choice([0, 1, 2, 31, 32, 62, 63, 63, 64, 65]))]
+    if k == 23:
+        return [23] + _special_data(rng, rng.choice([0, 1, 2, 7, 255, 256, 512]))
+    if k == 26:
+        return [26] + [rng.randrange(256) for _ in range(rng.choice([0, 1, 5, 63, 64]))]
+    if k == 27:
+        return [27, rng.choice([0, 1, 2, 3, 4])]
+    if k == 28:
+        return [28, rng.choice([0, 1, 2 ** 32 - 1, 2 ** 32, 2 ** 64 - 1, 2 ** 64, -1, rng.randrange(2 ** 32)])]
+    if k == 29:
+        return [29] + _special_data(rng, rng.choice(SIZES[:10]))
+    if k == 31:
+        return [31, rng.choice([0, 20, 64, 512, 1024, 4096, 65535, 100000, -1])]
+    return [k]
+
+
+def rand_fd_history(rng, st, n, small=False):
+    ops = []
+    while len(ops) < n:
+        l = rand_fd_op(rng, st, small)
+        for _ in range(2 if rng.random() < 0.15 else 1):
+            ops.append(l)
+            st, _ = fd_expect(st, l)
+    return ops + [[30], [30]], st
+
+
+def fd_state_of(a, kind=0):
+    ids, flags = a[0], a[1]
+    if kind == 1: ids, flags = [0, 1, 0, 1, 0, 1], [0, 0, 0, 0, 0]
+    if kind == 2: ids, flags = [0, 0, 0, 0, 0, 0], [0, 0, 0, 0, 0]
+    meta = list(a[4]) if a[4] and a[4][0] == 1 else [0]
+    st = {"hd": [1, 1 if meta[0] == 1 else 0, 0], "ids": list(ids), "flags": [flags[0], flags[1], flags[2], 0, flags[4]],
+          "off": [a[2][0]], "data": list(a[3]), "meta": meta}
+    st["hd"][2] = fd_required(st)
+    return st
 
 
 def streams(tier, rng):
@@ -302,6 +509,78 @@ def streams(tier, rng):
                 ops.append([2] + _rand_meta(rng, rng.choice([0, 1, 4, 63, 64]))[1:])
         cases.append((1406, a + ops))
     yield "setter_histories", "exact", cases
+    # 10. operation histories on one PDU object: both setters (bytes and bytearray), the same object assigned again after
+    #     the caller changed it in place, edits of the header / configuration / byte fields / segment metadata /
+    #     parameter object reachable from the PDU, refused assignments, pack in between and twice at the end;
+    #     constructor start (explicit, default(), empty() configuration; bytes or bytearray file data) and unpack start
+    #     (bytes, or a bytearray the caller overwrites afterwards)
+    cases = []
+    for _ in range(5000 if big else 800):
+        a = _rand_pdu(rng)
+        if rng.random() < 0.3:
+            a[3] = _special_data(rng, rng.choice(SIZES))
+        kind = rng.choice([0, 0, 0, 0, 0, 1, 2])
+        if rng.random() < 0.06:
+            a[2], a[3], a[4] = [0], [], [0]         # FileDataParams.empty()
+        st = fd_state_of(a, kind)
+        ops, _ = rand_fd_history(rng, st, rng.randrange(0, 11))
+        cases.append((1407, a + [[kind, rng.randrange(2), 1]] + ops))
+    for _ in range(3000 if big else 450):
+        a = _rand_pdu(rng)
+        if rng.random() < 0.4:
+            a[3] = _special_data(rng, rng.choice(SIZES))
+        if not valid_fd(a):
+            continue
+        st = fd_state_of(a); st["flags"][3] = a[1][3]
+        raw = fd_layout(a[0], a[1], a[2][0], a[3], a[4], keep_direction=True)
+        ops, _ = rand_fd_history(rng, st, rng.randrange(0, 8))
+        cases.append((1408, [raw + [rng.randrange(256) for _ in range(rng.choice([0, 0, 2, 40]))], [rng.randrange(2)]] + ops))
+    yield "histories_setters_subobjects", "exact", cases
+    # 11. histories at the 65535-octet data-field limit: a segment that exactly fits, then metadata / more data /
+    #     the same data again / a smaller segment (assignments that have to be refused must leave the PDU as it was)
+    cases = []
+    for i in range(24 if big else 8):
+        crc = 1 if i % 8 == 7 else 0
+        large = (i // 2) % 2
+        ids, flags = _rand_conf(rng, crc=crc, large=large)
+        meta = [0] if i % 2 == 0 else [1, rng.randrange(4)] + [rng.randrange(256) for _ in range(rng.choice([0, 1, 63]))]
+        room = 65535 - (8 if large else 4) - (2 if crc else 0) - (len(meta) - 1 if meta[0] == 1 else 0)
+        n = room - rng.choice([0, 0, 1, 2, 70])
+        a = [ids, flags, [_rand_off(rng, large)], _rand_data(rng, n), meta]
+        ops = [rng.choice([[22, 3] + [7] * rng.choice([0, 1, 63]), [23] + [9] * rng.choice([1, 2, 3, 80]), [20, 0] + _rand_data(rng, room + rng.choice([1, 2, 300])),
+                           [21], [24], [25], [30] if not crc else [24]]) for _ in range(3)]
+        ops += [[20, 1] + _rand_data(rng, rng.choice([0, 5]))] if i % 3 == 0 else []
+        cases.append((1407, a + [[0, i % 2]] + ops + ([[30]] if not crc or i % 16 == 15 else [[24]])))
+    yield "histories_at_the_limit", "exact", cases
+    # 12. sizes: every file-data length 0..1100 (thorough 0..4200), +-8 around 4 KiB and 8 KiB, and the largest
+    #     segment of each configuration: pack, round trip, decode
+    cases = []
+    sweep = list(range(0, 4201 if big else 1101)) + [4096 + d for d in range(-8, 9)] + [8192 + d for d in range(-8, 9)]
+    if big:
+        sweep += list(range(4300, 65000, 251))
+    for i, n in enumerate(sweep):
+        crc = i % 2 if n <= 1100 or i % 16 == 1 else 0
+        ids, flags = _rand_conf(rng, crc=crc)
+        meta = _rand_meta(rng) if i % 3 else [0]
+        a = [ids, flags, [_rand_off(rng, flags[1])], _special_data(rng, n), meta]
+        cases.append((1404, a + [[]]))
+        if i % 4 == 0 and valid_fd(a):
+            cases.append((1402, [lay(a) + [rng.randrange(256) for _ in range(rng.choice([0, 1, 9]))]]))
+    yield "exh_sizes_file_data", "exact", cases
+    # 13. several extremes at once: CRC and large-file flag and 63 octets of metadata (or none) and the widest IDs and
+    #     the largest segment that fits / one octet more, offset at its maximum
+    cases = []
+    for crc, large, mlen in ([(1, 1, 63), (0, 1, 63), (0, 0, 0), (1, 0, None)] if not big else itertools.product((0, 1), (0, 1), (63, 0, None))):
+        ids, flags = _rand_conf(rng, sl=8, ql=8, crc=crc, large=large)
+        ids[0] = ids[2] = ids[4] = 256 ** 8 - 1
+        meta = [0] if mlen is None else [1, 3] + [0xFF] * mlen
+        room = 65535 - (8 if large else 4) - (2 if crc else 0) - (len(meta) - 1 if meta[0] == 1 else 0)
+        off = 256 ** (8 if large else 4) - 1
+        cases.append((1404, [ids, flags, [off], [0xFF] * room, meta, []]))
+        cases.append((1400, [ids, flags, [off], [0xFF] * (room + 1), meta]))
+        if not crc:
+            cases.append((1402, [fd_layout(ids, flags, off, [0x80] * room, meta, keep_direction=True)]))
+    yield "extremes_combined", "exact", cases
     # 9. garbage: random octets biased to file-data headers with valid widths and consistent lengths
     cases = []
     for _ in range(30000 if big else 4000):
@@ -336,6 +615,11 @@ def oracle_spec(case, ires):
     return []
 
 
+def h5_fields_of(flat):
+    """the four lines of c05._fields from the flat 16-integer header state"""
+    return [flat[0:3], flat[3:9], flat[9:14], flat[14:16]]
+
+
 def _check_decoded(b, ires, what):
     """A decoded PDU must be exactly what the octets b[:packet_len] say: laying the decoded fields out
     again gives those octets (nothing beyond the declared length or of the CRC trailer folded in)."""
@@ -355,11 +639,135 @@ def _check_decoded(b, ires, what):
     return None
 
 
+def check_fd_state(st, lines, what):
+    """lines: the five view lines of one step (header state, id octets, [offset], file data, metadata)"""
+    r = h5.check_hdr_state({"hd": st["hd"], "ids": st["ids"], "flags": st["flags"]}, lines[0], lines[1], what)
+    if r:
+        sig = r[0].replace("C05/PduHeader.history/setter-effect", "C07/FileDataPdu.history/header-views")
+        return (sig, r[1])
+    if lines[2] != st["off"] or lines[3] != st["data"] or lines[4] != st["meta"]:
+        return ("C07/FileDataPdu.history/setter-effect", "%s: offset %s, %d octets of file data %s.., metadata %s; expected %s, %d octets %s.., %s" % (
+            what, lines[2], len(lines[3]), lines[3][:12], lines[4][:10], st["off"], len(st["data"]), st["data"][:12], st["meta"][:10]))
+    return None
+
+
+def check_fd_history(st, steps, ops, caller=None):
+    """caller: {"ids": [...], "shared": [bool] * 3} -- the caller's PduConfig, whose byte-field objects the PDU shares
+    (copy.copy in the constructor is shallow) until the PDU gets other objects assigned; updated in place"""
+    prev_pack = None
+    for i, (l, step) in enumerate(zip(ops, steps)):
+        status, lines, out = step[0], step[1:6], step[6]
+        st2, verdict = fd_expect(st, l)
+        if caller is not None and status[0] == 0:
+            for k in {4: (0, 1), 5: (2,), 13: (l[1],) if len(l) > 1 else (), 14: (0, 1, 2)}.get(l[0], ()):
+                caller["shared"][k] = False
+            for k in range(3):
+                if caller["shared"][k]:
+                    caller["ids"][2 * k:2 * k + 2] = st2["ids"][2 * k:2 * k + 2]
+        where = "operation %d %s" % (i, l[:8])
+        if status[0] == 1:
+            prev_pack = None
+            if verdict == "attr" and status[1] == core.E_ATTR:
+                pass
+            elif status[1] in core.UNDOCUMENTED or status[1] == 99:
+                if not (l[0] == 30 and verdict == "any") and not (l[0] == 15 and verdict == "any"):
+                    return ("C07/FileDataPdu.history/undocumented-error", "%s raised %s" % (where, core.ERR_NAMES.get(status[1], status[1])))
+            elif verdict == "ok":
+                return ("C07/FileDataPdu.history/refuses-valid", "%s was refused" % where)
+            after = st2 if verdict == "refuse" else st
+            r = check_fd_state(after, lines, where + " (refused)")
+            if r:
+                return ("C11/FileDataPdu.setters/refused-assignment-changed-pdu", r[1])
+            st = after
+            continue
+        if verdict in ("refuse", "attr"):
+            return ("C07/FileDataPdu.history/not-refused", "%s was accepted (data field of %d octets, metadata of %d)" % (
+                where, fd_required(st2), len(st2["meta"]) - 2))
+        st = st2
+        r = check_fd_state(st, lines, where)
+        if r:
+            if l[0] in (20, 21, 22, 23, 24, 25) and r[0] == "C07/FileDataPdu.history/header-views":
+                return ("C11/FileDataPdu.setters/length", r[1])
+            return r
+        if l[0] == 30:
+            exp = fd_pack_expect(st)
+            if exp is not None and out != exp:
+                return ("C11/FileDataPdu.setters/fresh" if st["hd"][2] == fd_required(st) else "C07/FileDataPdu.pack/layout",
+                        "%s: packed %d octets %s.., the current values (%d octets of file data, metadata %s, flags %s) encode to %d octets %s.." % (
+                            where, len(out), out[:24], len(st["data"]), st["meta"][:6], st["flags"], len(exp), exp[:24]))
+            if prev_pack is not None and out != prev_pack:
+                return ("C11/FileDataPdu.pack/not-repeatable", "%s: two packs in a row differ" % where)
+            prev_pack = out
+        else:
+            prev_pack = None
+        if l[0] == 15 and h5.valid_args(st["ids"], st["flags"], st["hd"]) and out != h5.layout(st["ids"], st["flags"], st["hd"]):
+            return ("C05/PduHeader.pack/layout", "%s on pdu_header: %s" % (where, out))
+        if l[0] == 31 and verdict == "ok":
+            ids = st["ids"]
+            ov = 4 + ids[1] + ids[3] + ids[5] + (len(st["meta"]) - 1 if st["meta"][0] == 1 else 0) + (8 if st["flags"][1] == 1 else 4) + (2 if st["flags"][2] == 1 else 0)
+            if out != [l[1] - ov]:
+                return ("C07/get_max_file_seg_len/value", "%s -> %s, overhead %d" % (where, out, ov))
+    return None, st
+
+
+def _fd_alias(b, ref):
+    return h5.alias_probe(FileDataPdu.unpack, _fields, b, ref)
+
+
 def oracle(case, ires, sres):
     """The property itself, evaluated on the implementation's observable behaviour."""
     op, a = case
     err = ires[0][0] == 1
     code = ires[0][1] if err else None
+    if op in (1407, 1408):
+        if op == 1407:
+            ops = a[6:]
+            kind = a[5][0] if a[5] else 0
+            st = fd_state_of(a, kind)
+            if err:
+                if valid_fd(a) and kind == 0:
+                    return ("C07/FileDataPdu.__init__/refuses-valid", "valid parameters refused: %s" % ires)
+                return None
+            if st["hd"][2] > 65535:
+                return ("C07/FileDataPdu.__init__/not-refused", "a data field of %d octets was accepted" % st["hd"][2])
+            r = check_fd_state(st, ires[1:6], "after construction")
+            if r:
+                return r
+            conf0 = [list(st["ids"]), [a[1][0], a[1][1], a[1][2], a[1][3], a[1][4]] if kind == 0 else [0] * 5]
+            if ires[6:8] != conf0:
+                return ("C11/FileDataPdu.__init__/caller-conf-modified", "caller's PduConfig %s after construction: %s" % (conf0, ires[6:8]))
+            caller = {"ids": list(st["ids"]), "shared": [True] * 3}
+            body, tail, cend = ires[8:-5], ires[-5:-2], (ires[-2:], conf0[1])
+        else:
+            ops = a[2:]
+            if err:
+                return None         # decoding itself: ops 1402 / 1404
+            if ires[1] != [1]:
+                return ("C07/FileDataPdu.unpack/aliases-input-buffer", "the PDU decoded from a bytearray changed when the caller overwrote that buffer")
+            r = _check_decoded(a[0], [[0]] + h5_fields_of(ires[2]) + ires[4:7], "fold-in")
+            if r:
+                return r
+            flat = ires[2]
+            st = {"hd": flat[0:3], "ids": flat[3:9], "flags": flat[9:14], "off": ires[4], "data": ires[5], "meta": ires[6]}
+            caller = {"ids": list(st["ids"]), "shared": [True] * 3}
+            if ires[-5:] != ires[2:7]:
+                return ("C07/FileDataPdu.unpack/second-decode-differs", "the same octets decoded again after the first PDU was edited give %s, the first time %s" % (
+                    [x[:16] for x in ires[-5:]], [x[:16] for x in ires[2:7]]))
+            ires = ires[:-5]
+            body, tail, cend = ires[7:-5], ires[-5:-2], (ires[-2:], list(st["flags"]))
+        if len(body) != 7 * len(ops):
+            return ("C07/FileDataPdu.history/shape", "result has %d lines for %d operations" % (len(body), len(ops)))
+        r = check_fd_history(st, [body[7 * i:7 * i + 7] for i in range(len(ops))], ops, caller)
+        if r[0] is not None:
+            return r
+        st = r[1]
+        if cend[0] != [caller["ids"], cend[1]]:
+            return ("C11/FileDataPdu/caller-conf-modified", "the caller's PduConfig ends as %s; its flags were %s and the byte-field objects it still "
+                    "shares with the PDU hold %s" % (cend[0], cend[1], caller["ids"]))
+        if tail != [st["off"], st["data"], st["meta"]]:
+            return ("C07/FileDataPdu.history/params-object", "the parameter object ends as %s, the PDU's views say %s" % (
+                [x[:12] for x in tail], [st["off"], st["data"][:12], st["meta"][:12]]))
+        return None
     if op == 1401:
         ids, flags, (off,), data, meta = a[:5]
         if not h5.valid_args(ids, flags, [1, 0, 0]):
@@ -419,6 +827,9 @@ def oracle(case, ires, sres):
             return ("C07/FileDataPdu.pack/repack" + tag, "re-packed %s, original %s" % (repack[:48], exp[:48]))
         if sres and sres[0][1] != exp:
             return ("C07/FileDataPdu.pack/layout", "Coq spec layout differs from the packed octets")
+        m = _fd_alias(exp + list(sfx), ires[2:9])
+        if m:
+            return ("C07/FileDataPdu.unpack/aliases-input-buffer", m)
         return None
     if op == 1402:
         b = a[0]
@@ -426,7 +837,12 @@ def oracle(case, ires, sres):
             if not DOC(code):
                 return ("C10/FileDataPdu.unpack/undocumented-error", "unpack(%s) escaped with %s" % (b[:40], core.ERR_NAMES.get(code, code)))
             return None
-        return _check_decoded(b, ires, "fold-in")
+        r = _check_decoded(b, ires, "fold-in")
+        if r is None:
+            m = _fd_alias(b, ires[1:8])
+            if m:
+                return ("C07/FileDataPdu.unpack/aliases-input-buffer", m)
+        return r
     if op == 1403:
         b = a[0]
         if err:
